@@ -1,5 +1,5 @@
 from .atom import AtomBase
-from .operators import Otype
+from .operators import Otype, OperatorBase
 
 class Tokens:
     
@@ -34,6 +34,11 @@ class Tokens:
             if isinstance(token, operators) and otype==Otype.UNARY:
                 token.operate_unary(self)
             elif isinstance(token, operators) and otype==Otype.BINARY:
+                # a binary operator needs an operand (not another operator, not nothing) on both sides
+                left = self.left[-1] if self.left else None
+                right = self.right[0] if self.right else None
+                if left is None or right is None or isinstance(left, OperatorBase) or isinstance(right, OperatorBase):
+                    raise Exception("Binary operator without an operand:", token)
                 token.operate_binary(self)
             elif isinstance(token, operators) and otype==Otype.ARGS:
                 token.operate_args(self)
